@@ -156,6 +156,9 @@ func (e *Engine) setupIntrinsics() {
 		effect(st, "vpOldWrites")
 		return BVC(64, uint64(st.OldWrites))
 	}
+	n[p+"vpStackDepth"] = func(e *Engine, st *State, fn *ssa.Function, a []Value) Value {
+		return BVC(64, uint64(len(st.Frames)))
+	}
 	n[p+"vpConcrete"] = func(e *Engine, st *State, fn *ssa.Function, a []Value) Value {
 		t := a[0].(*Term)
 		if t.IsConst() {
